@@ -1,3 +1,4 @@
+import threading
 import types
 from collections import deque
 from contextlib import contextmanager
@@ -609,13 +610,24 @@ class Component(
         self.registered_name: Optional[str] = registered_name
         self.outer_context: Optional[Context] = outer_context
         self.registry = registry or registry_
-        self._metadata_stack: Deque[MetadataItem[ArgsType, KwargsType, SlotsType]] = deque()
+        # NOTE: One stack per thread (see `_metadata_stack`)
+        self._metadata_local = threading.local()
         # None == uninitialized, False == No types, Tuple == types
         self._types: Optional[Union[Tuple[Any, Any, Any, Any, Any, Any], Literal[False]]] = None
 
     def __init_subclass__(cls, **kwargs: Any) -> None:
         cls._class_hash = hash_comp_cls(cls)
         comp_hash_mapping[cls._class_hash] = cls
+
+    @property
+    def _metadata_stack(self) -> Deque[MetadataItem[ArgsType, KwargsType, SlotsType]]:
+        # NOTE: One component instance may be rendered from several threads at once (e.g. the instance
+        #       behind `Component.as_view()` serves all requests). Each of those renders must see its own
+        #       `input`, `id` and `is_filled`, so each thread has its own stack.
+        stack = getattr(self._metadata_local, "stack", None)
+        if stack is None:
+            stack = self._metadata_local.stack = deque()
+        return stack
 
     @contextmanager
     def _with_metadata(self, item: MetadataItem) -> Generator[None, None, None]:
